@@ -117,7 +117,11 @@ def build_unit(plan, u, bdir, tier):
     sym = json.load(open(symf))
     u.sym = sym
     # generated harnesses for contract jobs
-    hs = ['#include "vf.h"', '#define VF_MAXB %d' % u.maxb, '#include "gen.c"']
+    hs = ['#include "vf.h"', '#define VF_MAXB %d' % u.maxb, '#include "vf_rt.h"']
+    for h in u.pre:
+        hp = os.path.join(ud, h) if h in plan.generated else os.path.join(pdir, h)
+        hs.append('#include "%s"' % hp)
+    hs.append('#include "gen.c"')
     for h in u.harness:
         hp = os.path.join(ud, h) if h in plan.generated else os.path.join(pdir, h)
         hs.append('#include "%s"' % hp)
@@ -140,8 +144,10 @@ def build_unit(plan, u, bdir, tier):
     unitc = os.path.join(ud, 'unit.c')
     with open(unitc, 'w') as f:
         f.write('\n'.join(hs) + '\n')
+    # one define per bodiless external present in the IR, so harness stubs for optional externals can be conditional
+    have = ['-DVF_HAVE_' + f['cname'] for f in sym['functions'] if not f['defined']]
     uo = os.path.join(ud, 'unit.o')
-    rc, out, err, _ = run(['goto-cc', '-c', unitc, '-o', uo, '-I', ud, '-I', pdir, '-I', os.path.join(VERIF, 'include'), '-DVF_CBMC'] + ['-D' + d for d in u.defines], timeout=600)
+    rc, out, err, _ = run(['goto-cc', '-c', unitc, '-o', uo, '-I', ud, '-I', pdir, '-I', os.path.join(VERIF, 'include'), '-DVF_CBMC'] + have + ['-D' + d for d in u.defines], timeout=600)
     if rc != 0:
         raise Infra('goto-cc failed on generated C:\n' + (err + out)[-3000:])
     u.obj = uo
@@ -309,6 +315,7 @@ def run_job(plan, j, tier):
     R.solver_s = dt
     R.cmds.append(cmdline)
     probe_ok = False
+    expected_seen = set()
     fails = []
     infra = []
     for o in res:
@@ -321,16 +328,20 @@ def run_job(plan, j, tier):
             if st == 'FAILURE':
                 probe_ok = True
             continue
+        if any(x in desc for x in j.expected):
+            if st == 'FAILURE':
+                expected_seen.add(desc)
+            continue
         R.oblig.append(ob)
         if st == 'FAILURE':
-            if any(m in desc for m in MODEL_LIMIT) or prop.startswith('no-body.') or '.no-body.' in prop:
+            if any(m in desc for m in MODEL_LIMIT) or prop.startswith('no-body.') or '.no-body.' in prop or prop.startswith(('vf_memmove.unwind', 'vf_memset.unwind', 'vf_wmem', 'vf_wcslen.unwind')):
                 infra.append(ob)
             else:
                 fails.append(ob)
         elif st != 'SUCCESS':
             infra.append(ob)
     R.fails = fails
-    if fails and not any(m in o['description'] for o in infra for m in MODEL_LIMIT) and not any('no-body' in o['property'] for o in infra):
+    if fails and not any(o['status'] == 'FAILURE' for o in infra):
         # a definite FAILURE with a counterexample; obligations left UNKNOWN behind it do not matter
         R.status = 'failed'
         return R
@@ -340,6 +351,9 @@ def run_job(plan, j, tier):
         return R
     if fails:
         R.status = 'failed'
+        return R
+    if j.expected and not all(any(x in d for d in expected_seen) for x in j.expected):
+        R.reason = 'expected (documented) failure site was not reached: ' + ', '.join(j.expected)
         return R
     if not R.oblig:
         R.reason = 'vacuous: zero obligations generated'
@@ -414,6 +428,10 @@ def main():
     t_start = time.time()
     plan = load_plan(pid, tier)
     bdir = os.path.join(VERIF, 'build', pid)
+    os.makedirs(os.path.join(VERIF, 'build'), exist_ok=True)
+    import fcntl
+    lockf = open(os.path.join(VERIF, 'build', pid + '.lock'), 'w')
+    fcntl.flock(lockf, fcntl.LOCK_EX)   # one run per property at a time (they share the build directory)
     shutil.rmtree(bdir, ignore_errors=True)
     os.makedirs(bdir)
     infra_msgs = []
